@@ -117,6 +117,11 @@ def run(ctx):
     for n in range(ncust):
         procs = [[call("RespGetCustom", (g + n) % 5, "dec" if i % 2 == 0 else "enc", ENCS[(n + g // 3) % 3]) for i in range(2)] for g in range(8)]
         jobs.append({"id": "custom-attributes-%d" % n, "job": {"mode": "free", "reps": 300 if ctx.quick else 800, "procs": procs}})
+    # (g) 8 goroutines write the same big integers (small and large, both signs) in JSON at once: the limits that decide between the number
+    # and the hexadecimal form are constants, not state (first in the list: it is part of every run under the race detector)
+    for n in range(2 if ctx.quick else 6):
+        procs = [[call("RespGetBig", (g + n) % 5, "enc", "json") for i in range(2)] for g in range(8)]
+        jobs.insert(0, {"id": "json-bigints-%d" % n, "job": {"mode": "free", "shared": n % 2 == 0, "reps": 400 if ctx.quick else 1500, "procs": procs}})
     jpath = os.path.join(ctx.work, "jobs.ndjson")
     vlib.write_ndjson(jpath, jobs)
     results = []
